@@ -73,3 +73,20 @@ Proof.
     destruct H as [H|[H|H]]; apply Rsqr_pos_lt in H; unfold Rsqr in H; lra.
   - apply (lookat_minus_z R Rops Rops_ring). intros p q. reflexivity.
 Qed.
+
+(* ... and the frame is right-handed: the determinant of the linear part is positive whenever
+   up is not parallel to the viewing direction *)
+Lemma lookat_R_right_handed : forall eye interest up,
+  let front := toUnitVec Rops (vsub Rminus eye interest) in
+  let fu := vcross Rmult Rminus front up in
+  vdot Rplus Rmult fu fu > 0 ->
+  det3 Rplus Rmult Rminus (lookat_matrix Rops eye interest up) > 0.
+Proof.
+  intros eye interest up front fu Hpos.
+  pose proof (lookat_det R Rops Rops_ring (fun p q => eq_refl) eye interest up) as H.
+  cbv zeta in H. fold front in H. fold fu in H.
+  change (oinv Rops) with Rinv in H. change (osqrt Rops) with sqrt in H. change (omul Rops) with Rmult in H.
+  change (oadd Rops) with Rplus in H. change (osub Rops) with Rminus in H.
+  rewrite H. apply Rmult_lt_0_compat; [|exact Hpos].
+  apply Rinv_0_lt_compat. apply sqrt_lt_R0. exact Hpos.
+Qed.
